@@ -24,17 +24,21 @@ class LinOrder(OrderParameter):
         return [val]
 
 
-class ZeroForces:
-    """ASE calculator: no forces (free flight).  Loaded through create_external."""
+from ase.calculators.calculator import Calculator, all_changes  # noqa: E402
 
-    def __init__(self, **kw):
-        from ase.calculators.calculator import all_changes
-        self.results = {}
-        self._all = all_changes
 
-    def calculate(self, atoms=None, properties=None, system_changes=None):
-        n = len(atoms)
-        self.results = {"energy": 0.0, "forces": np.zeros((n, 3)), "stress": np.zeros(6)}
+class HarmonicCalc(Calculator):
+    """ASE calculator: every atom is bound to the origin by a spring, forces = -k * x
+    (k = 0: free flight).  Deterministic and time-reversible under velocity Verlet.  Loaded
+    through create_external (argument `kspring`)."""
 
-    def get_forces(self, atoms=None):
-        return self.results["forces"]
+    implemented_properties = ["energy", "forces"]
+
+    def __init__(self, kspring=0.0):
+        super().__init__()
+        self.kspring = float(kspring)
+
+    def calculate(self, atoms=None, properties=("energy", "forces"), system_changes=all_changes):
+        super().calculate(atoms, properties, system_changes)
+        x = self.atoms.get_positions()
+        self.results = {"energy": 0.5 * self.kspring * float((x * x).sum()), "forces": -self.kspring * x}
